@@ -41,9 +41,23 @@ def conform(rep, rid, where, what, want, got, loc):
         def sig(e):
             fns = {n[1][-1] for n in walk(e) if n[0] == "call" and n[1][0] in ("g", "ext")}
             leaves = {n for n in walk(e) if n[0] in ("p", "f")}
-            ops = {(n[0], n[1]) for n in walk(e) if n[0] in ("nary", "bin", "un")}
             return fns, leaves
+
+        def opsig(e):
+            from collections import Counter
+            ops = Counter()
+            for n in walk(e):
+                if n[0] == "nary":
+                    ops[n[1]] += len(n[2]) - 1
+                elif n[0] in ("bin", "un"):
+                    ops[n[1]] += 1
+            consts = sorted(round(float(n[1]), 9) for n in walk(e) if n[0] == "c" and isinstance(n[1], (int, float)) and not isinstance(n[1], bool))
+            return ops, consts
         sw, sg = sig(canon(want)), sig(canon(got))
+        if sw == sg and opsig(canon(want)) != opsig(canon(got)) and opsig(canon(want))[1] == opsig(canon(got))[1]:
+            rep.bad(rid, where, f"{what}: different operators",
+                    f"{what} is computed as {nshow(got)}: same inputs and constants as the documented formula {nshow(want)} but different arithmetic operators", loc)
+            return False
         if sw == sg:
             raise AnalysisError(f"{where}: cannot align {what} = {nshow(got)} with the documented formula {nshow(want)}")
         rep.bad(rid, where, f"{what}: different computation",
@@ -149,16 +163,21 @@ def check(prog, rep, tier):
     bits = mcall("ceil", ("bin", "/", ("bin", "*", ("un", "-", n), mcall("log", t)), C(LN2 * LN2)))
     hashes = ("call", ("g", "int"), (("call", ("g", "round"), (("bin", "/", ("bin", "*", C(LN2), bits), n),), ()),), ())
     normal = [p for p in ps if p.exit[0] == "return"]
-    if len(normal) != 1 or normal[0].exit[1][0] != "tup" or len(normal[0].exit[1][1]) != 3:
-        raise AnalysisError("BloomFilter._get_optimized_params: expected one normal path returning (rate, hashes, bits)")
-    rv = normal[0].exit[1][1]
-    loc = g.where(normal[0].exit[2])
-    conform(rep, "C07.bloom-formula", f"{ctx}._get_optimized_params", "narrowed rate", t, rv[0], loc)
-    conform(rep, "C07.bloom-formula", f"{ctx}._get_optimized_params", "number of bits", bits, rv[2], loc)
-    conform(rep, "C07.bloom-formula", f"{ctx}._get_optimized_params", "number of hashes", hashes, rv[1], loc)
+    if not normal or any(q.exit[1][0] != "tup" or len(q.exit[1][1]) != 3 for q in normal):
+        raise AnalysisError("BloomFilter._get_optimized_params: expected normal paths returning (rate, hashes, bits)")
+    seen_rv = set()
+    for q in normal:
+        rv = q.exit[1][1]
+        if canon(q.exit[1]) in seen_rv:
+            continue
+        seen_rv.add(canon(q.exit[1]))
+        loc = g.where(q.exit[2])
+        conform(rep, "C07.bloom-formula", f"{ctx}._get_optimized_params", "narrowed rate", t, rv[0], loc)
+        conform(rep, "C07.bloom-formula", f"{ctx}._get_optimized_params", "number of bits", bits, rv[2], loc)
+        conform(rep, "C07.bloom-formula", f"{ctx}._get_optimized_params", "number of hashes", hashes, rv[1], loc)
     zero = [p for p in ps if p.exit[0] == "raise" and any(strip_epochs(c.atom)[:2] == ("cmp", "==") and strip_epochs(c.atom)[3] == C(0) and c.truth
                                                             and first_diff(canon(hashes), canon(c.atom[2])) is None for c in p.conds)]
-    nz = any(strip_epochs(c.atom)[:2] == ("cmp", "==") and strip_epochs(c.atom)[3] == C(0) and not c.truth for c in normal[0].conds)
+    nz = all(any(strip_epochs(c.atom)[:2] == ("cmp", "==") and strip_epochs(c.atom)[3] == C(0) and not c.truth for c in q.conds) for q in normal)
     if zero and nz:
         rep.ok("C07.bloom-formula", "hashes == 0 raises InitializationError")
     else:
@@ -184,7 +203,8 @@ def check(prog, rep, tier):
             conform(rep, "C07.countmin-formula", "CountMinSketch.__init__", "width", wantw, w, init.where())
             conform(rep, "C07.countmin-formula", "CountMinSketch.__init__", "depth", wantd, d, init.where())
     if not seen:
-        raise AnalysisError("CountMinSketch.__init__: no path sizes the sketch from confidence / error_rate")
+        rep.bad("C07.countmin-formula", "CountMinSketch.__init__", "no sizing from confidence / error_rate",
+                "no construction path derives width and depth from (confidence, error_rate) any more", init.where())
     # ------------------------------------------------------------------ cuckoo
     cf = prog.method("CuckooFilter", "_calc_fingerprint_size")
     er, bs, fsz = ("f", SELF, "_error_rate", 0), ("f", SELF, "_bucket_size", 0), ("f", SELF, "_fingerprint_size", 0)
